@@ -6,6 +6,7 @@ import (
 	"os"
 	"os/exec"
 	"path/filepath"
+	"runtime/debug"
 	"runtime/pprof"
 	"sort"
 	"strings"
@@ -24,6 +25,9 @@ func main() {
 	if len(os.Args) < 2 {
 		usage()
 	}
+	// the live heap (SSA program, hash-consed terms) is large and stable; the interpreter allocates fast
+	debug.SetGCPercent(1000)
+	debug.SetMemoryLimit(24 << 30)
 	if pf := os.Getenv("CPUPROF"); pf != "" {
 		f, _ := os.Create(pf)
 		pprof.StartCPUProfile(f)
@@ -43,7 +47,9 @@ func main() {
 		}
 		os.Exit(runReplay(os.Args[2]))
 	case "run":
-		os.Exit(runDev(os.Args[2:]))
+		code := runDev(os.Args[2:])
+		pprof.StopCPUProfile()
+		os.Exit(code)
 	case "oraclefuzz":
 		os.Exit(runOracleFuzz(os.Args[2:]))
 	default:
